@@ -261,9 +261,13 @@ class Parser:
 
         def elem(i):
             p_i = mk_int(as_int_term(pos) + as_int_term(i) * esize)
-            prs = Parser(it, Stream(outer.stream.fid, outer.stream.base, None), record_leaves=False,
+            # elements at a concrete index (e.g. the single map projection record) are recorded leaf by leaf, so that their
+            # spare areas are known; elements at a symbolic index are not (their areas are covered through the element terms)
+            concrete = is_concrete_int(i) and outer.record_leaves
+            prs = Parser(it, Stream(outer.stream.fid, outer.stream.base, None), record_leaves=concrete,
                          enum_mode=outer.enum_mode, enum_other=outer.enum_other)
-            v, _ = prs.parse(con.subcon, p_i, ctx, path + ("[k]",), ())
+            prs.unchecked = 1  # availability of the whole array was checked above
+            v, _ = prs.parse(con.subcon, p_i, ctx, path + ((i,) if concrete else ("[k]",)), ())
             return v
 
         if self.record_leaves and len(path) <= 2:
